@@ -19,3 +19,4 @@ def check(ctx: Ctx) -> None:
     # no slot is lost only if every task has an id of its own: two tasks filed under one id overwrite each other, the second one's ending finds nothing and raises before it releases (id discipline shared with C11)
     from . import naming as _N
     _N.r_id_discipline(ctx, "R02.9")
+    S.r_published_before_first_step(ctx, "R02.10")
